@@ -212,6 +212,15 @@ pub fn table(ctx: &Ctx) -> Report {
             add("ldaps://localhost/".into(), Expect::ContactVia("tcp?:636".into()), "ldaps default port 636");
         }
         add(format!("ldaps://127.0.0.1:{}", pe), Expect::ContactVia("tcp4:eph".into()), "ldaps explicit port");
+        // an explicit port always wins, also when it is the other scheme's default
+        if have389 {
+            add("ldaps://127.0.0.1:389".into(), Expect::ContactVia("tcp4:389".into()), "ldaps with explicit port 389");
+            add("ldap://127.0.0.1:389".into(), Expect::OkVia("tcp4:389".into()), "ldap with explicit port 389");
+        }
+        if have636 {
+            add("ldap://127.0.0.1:636".into(), Expect::OkVia("tcp4:636".into()), "ldap with explicit port 636");
+            add("ldaps://127.0.0.1:636".into(), Expect::ContactVia("tcp4:636".into()), "ldaps with explicit port 636");
+        }
         // --- ldapi ---
         add(format!("ldapi://{}", pct_path(&unix_plain)), Expect::OkVia("unix:plain".into()), "percent-encoded socket path");
         add(format!("ldapi://{}/", pct_path(&unix_plain)), Expect::OkVia("unix:plain".into()), "percent-encoded socket path with slash");
